@@ -99,6 +99,7 @@ def execute(case, ctx):
         after = canon.snap(names)
         ctx.event(step, used, rout.kind, canon.digest(rout.brief()))
         ctx.op_kind(used[0])
+        ctx.state(canon.digest([used, rout.kind]))
         for f in rec.findings:
             if f[0] == 'argument_modified':
                 ctx.report('argument_modified', 'step %d %r: builtin %s changed one of its arguments: before %s, after %s' % (
